@@ -586,3 +586,17 @@ Definition l2_cons (rl : rule) (k : hcase) : bool :=
                     | Ok st => cstate_eqb st (nth s (k_cst k) ([], []))
                     | Err _ => false
                     end) (k_samples k).
+
+(* the premises of the C17 theorems, evaluated on the implementation's own data: the (HP, PS) tags the
+   reads carry are those of the haplotag decision model for the phasing of k_orig (L2 for the tag
+   semantics), and every read is an error-free copy of one haplotype inside one phase set *)
+Definition k_phi (k : hcase) (s : nat) : Z -> option (Z * Z * Z) := phi_of (sample_view (k_orig k) s).
+Definition l2_tags (k : hcase) : bool :=
+  forallb (fun s => forallb (tagged_by (k_phi k s)) (nth s (k_reads k) [])) (k_samples k).
+Definition hyp_error_free (k : hcase) : bool :=
+  forallb (fun s => forallb (error_free (k_phi k s)) (nth s (k_reads k) [])) (k_samples k).
+Definition hyp_sites (k : hcase) : bool :=
+  forallb (fun s =>
+    forallb (fun ab => (iv_pos (fst ab) =? iv_pos (snd ab)) && list_eqb (iv_g (fst ab)) (iv_g (snd ab)))
+            (combine (sample_view (k_orig k) s) (sample_view (k_inp k) s))) (k_samples k)
+  && same_positions (k_orig k) (k_inp k).
